@@ -352,6 +352,37 @@ def run(ctx, res):
         run_history(ctx, res, regs, ops, h, lines, expect)
         res.evaluations += len(ops)
     res.sample({'ops': [ser(o) for o in hists[0][1][:3]]})
+    # several carts alive at once: an edit of one cart touches nothing of another — two new empty carts, and a cart whose sections were
+    # made from the first one's bytes (`Section.from_bytes(other.to_bytes())`)
+    from pico8.game.game import Game
+    for h in range(ctx.budget(8, 60)):
+        ga, gb = Game.make_empty_game(), Game.make_empty_game()
+        gc = Game.make_empty_game()
+        for nm, _ in U.REGION_SIZES:
+            sec = getattr(ga, nm)
+            try:
+                setattr(gc, nm, type(sec).from_bytes(sec.to_bytes(), version=8))
+            except Exception:
+                pass
+        snap = [U.regions_of(gb), U.regions_of(gc)]
+        ops = [gen_op(rng) for _ in range(rng.randrange(3, 25))]
+        done = []
+        for op in ops:
+            if op[0].startswith('get'):
+                continue
+            try:
+                apply_impl(ga, op)
+                done.append(op)
+            except Exception:
+                pass
+        res.evaluations += len(done)
+        res.count('two-carts-alive')
+        for who, g_, before in (('another new empty cart', gb, snap[0]), ('a cart made from the first one\'s bytes', gc, snap[1])):
+            after = U.regions_of(g_)
+            bad = [n for n in after if after[n] != before[n]]
+            if bad:
+                res.fail('C17:aliasing:%s' % bad[0], 'editing one cart changed the %s region of %s' % (bad, who), {'ops': [ser(o) for o in done]})
+                break
     if ctx.model.available:
         mo = ctx.model.run(lines)
         seen = set()
